@@ -412,6 +412,12 @@ func ruleWireFor(w *World, r *RuleResult) {
 						word = cd.Atom.A[1].S
 					}
 				}
+				if !depthRelative(l) {
+					// a counter, not a flag: the new depth is the old depth plus or minus one, never an absolute value
+					// (an absolute 1 on an inner 'for' loses the count at nesting depth 3 and beyond)
+					d.add(false, "depth/relative", w.Pos(instrPosE(e)), "", "nesting depth set to "+e.Val.Show()+" instead of the previous depth +/- 1: blocks nested three deep are closed by the wrong 'rof'")
+					continue
+				}
 				switch l.Const {
 				case 1:
 					d.add(word == "for", "depth/inc", w.Pos(instrPosE(e)), "nesting depth incremented exactly on an inner 'for'", "nesting depth is incremented on '"+word+"'")
@@ -454,6 +460,9 @@ func ruleWireFor(w *World, r *RuleResult) {
 			delta := int64(0)
 			for _, e := range p.Events {
 				if e.Kind == "store" && e.LV.Op == "sel" && e.LV.S == "forDepth" {
+					if !depthRelative(linearOf(e.Val)) {
+						delta = 1 << 40 // absolute store: reported by depth/relative, never counts as +/- 1
+					}
 					delta += linearOf(e.Val).Const
 				}
 			}
@@ -622,6 +631,20 @@ func ruleAliasBuf(w *World, r *RuleResult) {
 // them a string field of the machine (the block's counter label) — by
 // Sprintf or by concatenation.  Both forms are reduced to a format with %s
 // holes and the list of arguments, so that sites written either way compare.
+// depthRelative: the stored value is (the nesting depth field) + constant, coefficient exactly one.
+func depthRelative(l *Lin) bool {
+	if len(l.Coef) != 1 {
+		return false
+	}
+	for k, c := range l.Coef {
+		a := stripConv(l.Atom[k])
+		if c != 1 || a == nil || a.Op != "sel" || a.S != "forDepth" {
+			return false
+		}
+	}
+	return true
+}
+
 func mangleOf(p *Path, t *T) (format string, args []*T, ok bool) {
 	t = stripConv(t)
 	switch {
